@@ -663,6 +663,14 @@ func streamC14Decode(sink *Sink, rng *rand.Rand, tier string, scratch string) {
 			tokDecodeCase(sink, pre+tokRandFrom(rng, tokAlphabet, 3+rng.Intn(4)), "prefix+sampled")
 		}
 	}
+	// 2b. what a user may paste instead of a bare token: URI schemes, surrounding white space, with nothing, a few characters, a
+	// bare prefix or a whole prefix + payload behind them (none of these is a token: DecodeToken must answer with an error)
+	for _, scheme := range []string{"cashu:", "cashu://", "web+cashu://", "CASHU:", "cashu:cashu:", " ", "\t", "\n", "lightning:", "bitcoin:", "https://"} {
+		for _, rest := range []string{"", "a", "ab", "abc", "abcd", "abcde", "abcdef", "cashu", "cashuA", "cashuB", "cashuAe", "cashuAey", "cashuBo2F0", "cashuAeyJ0b2tlbiI6W119"} {
+			tokDecodeCase(sink, scheme+rest, "scheme+short")
+			tokDecodeCase(sink, rest+scheme, "short+scheme")
+		}
+	}
 	// 3. valid tokens: truncations, single-byte mutations, wrong prefixes, other base64 flavours
 	for i := 0; i < 10*scale; i++ {
 		for _, v := range []int{3, 4} {
@@ -704,6 +712,10 @@ func streamC14Decode(sink *Sink, rng *rand.Rand, tier string, scratch string) {
 			}
 			for _, pre := range []string{"cashuC", "cashua", "CASHUA", "cashu", "cashuAB", "cashuBA", " cashuA", "cashuA ", "cashuB\n", "cashuA=", "Cashu:", "cashuA" + "cashuA", "cashuB" + "cashuA"} {
 				tokDecodeCase(sink, pre+body, "wrong-prefix")
+			}
+			for _, scheme := range []string{"cashu:", "cashu://", "web+cashu://", " ", "\n"} {
+				tokDecodeCase(sink, scheme+tok, "scheme+token")
+				tokDecodeCase(sink, tok+scheme, "token+scheme")
 			}
 			other := "cashuA"
 			if v == 3 {
